@@ -1174,6 +1174,14 @@ class SNGen:
                 if exp is None:
                     exp = env["top"][nm]
                 out.append(("leaf", self.n("l"), "type %s;" % ref, ("type", exp[0], exp[1])))
+            elif x < 0.74 and env.get("chain"):
+                # a typedef / identity that lives in a submodule reached only through nested includes
+                lvl = r.choice(env["chain"])
+                if r.random() < 0.5:
+                    out.append(("leaf", self.n("l"), "type %s:deep%d;" % (env["own"], lvl), ("type", "int64", "deep%d" % lvl)))
+                else:
+                    out.append(("leaf", self.n("l"), "type identityref { base %s:kind%d; }" % (env["own"], lvl),
+                                ("id", "main/main-sub%d:kind%d" % (lvl, lvl))))
             elif x < 0.8:
                 out.append(("leaf", self.n("l"), "type %s:%s;" % (env["ip"], nm), ("type", "uint32", "other-" + nm)))
             elif x < 0.9:
@@ -1232,7 +1240,9 @@ def gen_scoped_names(rnd):
         top[n] = (r.choice(SN_BASES), "main-" + n)
     for n in sub_names:
         top[n] = (r.choice(SN_BASES), "sub-" + n)
-    envs = {"main": dict(own="m", ip="o", top=top), "sub": dict(own=bp, ip=sub_ip, top=top)}
+    # main includes main-sub only; main-sub includes main-sub2, which includes main-sub3 (nested-only includes)
+    chain = [2, 3][:r.randint(1, 2)] if has_sub and r.random() < 0.6 else []
+    envs = {"main": dict(own="m", ip="o", top=top, chain=chain), "sub": dict(own=bp, ip=sub_ip, top=top, chain=chain)}
     groupings = {"main": [], "sub": []}
     for where in ["main"] + (["sub"] if has_sub else []):
         env = envs[where]
@@ -1272,13 +1282,18 @@ def gen_scoped_names(rnd):
     decoy2 = decoy.replace("decoy", "decoy2")
     texts = [("main.yang", main), ("other.yang", other), ("user.yang", user), ("decoy.yang", decoy), ("decoy2.yang", decoy2)]
     if has_sub:
-        sub = ('submodule main-sub {\n  belongs-to main { prefix %s; }\n  import other { prefix %s; }\n%s%s%s  leaf subleaf { type string; }\n}\n'
-               % (bp, sub_ip, tds(sub_names, "sub"), "".join(sn_render(x, "  ") for x in groupings["sub"]),
-                  "".join(sn_render(x, "  ") for x in sub_body)))
+        sub = ('submodule main-sub {\n  belongs-to main { prefix %s; }\n  import other { prefix %s; }\n%s%s%s%s  leaf subleaf { type string; }\n}\n'
+               % (bp, sub_ip, "  include main-sub2;\n" if chain else "", tds(sub_names, "sub"),
+                  "".join(sn_render(x, "  ") for x in groupings["sub"]), "".join(sn_render(x, "  ") for x in sub_body)))
         texts.append(("main-sub.yang", sub))
+        for lvl in chain:
+            texts.append(("main-sub%d.yang" % lvl,
+                          'submodule main-sub%d {\n  belongs-to main { prefix m; }\n%s  typedef deep%d { type int64; units "deep%d"; }\n'
+                          '  identity kind%d;\n  identity kind%d-derived { base kind%d; }\n  leaf deepleaf%d { type string; }\n}\n'
+                          % (lvl, "  include main-sub%d;\n" % (lvl + 1) if lvl + 1 in chain else "", lvl, lvl, lvl, lvl, lvl, lvl)))
     r.shuffle(texts)
     expected = {"main": sn_expand(main_body) + sn_expand(sub_body), "user": sn_expand(user_body)}
-    return texts, expected, dict(sub=has_sub, belongs_prefix=bp, sub_import_prefix=sub_ip)
+    return texts, expected, dict(sub=has_sub, belongs_prefix=bp, sub_import_prefix=sub_ip, nested_includes=len(chain))
 
 
 def sn_compare(tree, expected, path, bad, cnt):
@@ -1622,7 +1637,7 @@ def run(res, tier, seed, proof):
     for (texts, expected, shape), line, g in zip(sn, sn_lines, sn_go):
         o, st, j = go_obs(g)
         rep = dict(kind="constraints", go_case=line, text="\n".join(t for _, t in sorted(texts)), shape=shape)
-        key = "%s/%s/%s" % (shape["sub"], shape["belongs_prefix"], shape["sub_import_prefix"])
+        key = "%s/%s/%s/%d" % (shape["sub"], shape["belongs_prefix"], shape["sub_import_prefix"], shape["nested_includes"])
         stats["scoped_name_shapes"][key] = stats["scoped_name_shapes"].get(key, 0) + 1
         if st != "ok":
             violation("scoped names family: the implementation did not process the set cleanly: %s"
